@@ -594,6 +594,9 @@ def _scn(case, where, marks=(), ev=None):
         reg = target_region(tf[0][1], tf[0][2]) if tf else 'none'
         s['region'] = reg
         s['in_try'] = 'T' if reg == 'try' else 'F'
+        if case.get('granularity') == 'opcode' and reg == 'try' and tf and tf[0][2] == _REGIONS.get(tf[0][1], (0,))[0]:
+            # the loop-header line also carries the loop-exit instructions, which lie outside the protected range
+            s['in_try'] = 'F'
         s['in_finally'] = 'T' if reg == 'finally' else 'F'
         if s['in_target'] == 'T':
             s['target_finished'] = 'F'          # its frame is still on the stack
